@@ -38,6 +38,10 @@ def plan(ctx):
     P.append(sweep.family_shards(PROP, "U-E", j))
     P.append(sweep.family_shards(PROP, "U-P2", j, stride=1 if ctx.thorough else 3, offset=ctx.seed))
     P.append(sweep.family_shards(PROP, "U-X", j))
+    P.append(sweep.universe_shards(PROP, "U-S5r", j, stride=50021 if ctx.thorough else 1000003, seed=ctx.seed))
+    P.append(sweep.universe_shards(PROP, "U-S6r", j, stride=20000003 if ctx.thorough else 400000009, seed=ctx.seed))
+    from ._plans import debug_log_parts
+    P.extend(debug_log_parts(PROP, ctx))
     return P
 
 
